@@ -20,7 +20,8 @@ type Env struct {
 	old     *State
 	lookup  func(name string, st *State) (TV, bool)
 	// spec-function translation mode: heap reads become hidden parameters
-	spec *specCtx
+	spec    *specCtx
+	iterKey string // state key of the map iterator of the loop being specified
 }
 
 type specCtx struct {
@@ -71,6 +72,13 @@ func (e *Enc) loopEnv(li *loopInfo, pred *ssa.BasicBlock) *Env {
 	env.st = e.st
 	env.old = e.entry
 	h := li.header
+	for _, in := range h.Instrs {
+		if nx, ok := in.(*ssa.Next); ok {
+			if rec := e.iterInfo[nx.Iter]; rec != nil && rec.isMap {
+				env.iterKey = rec.key
+			}
+		}
+	}
 	env.lookup = func(name string, st *State) (TV, bool) {
 		// phi in header
 		for _, in := range h.Instrs {
@@ -354,7 +362,11 @@ func (e *Enc) evalExpr(x Expr, env *Env) (TV, error) {
 			ft := st.Field(i).Type()
 			if isPtr {
 				k := e.heapKey(ss, i)
-				return TV{sel(env.getComp(k, false), a.S), so.sortOf(ft), ft}, nil
+				t := sel(env.getComp(k, false), a.S)
+				if env.spec == nil && !strings.Contains(t, "q_") {
+					e.wfHeapTerm(t, ft)
+				}
+				return TV{t, so.sortOf(ft), ft}, nil
 			}
 			info := so.structInfo[ss]
 			return TV{fmt.Sprintf("(%s %s)", info.Fields[i], a.S), so.sortOf(ft), ft}, nil
@@ -378,7 +390,7 @@ func (e *Enc) evalExpr(x Expr, env *Env) (TV, error) {
 				return TV{}, fmt.Errorf("index of slice without element type")
 			}
 			es := so.sortOf(stt.Elem())
-			k := e.arrKey(es)
+			k := e.arrKeyT(stt.Elem())
 			return TV{sel(sel(env.getComp(k, false), "(sbase "+a.S+")"), i.S), es, stt.Elem()}, nil
 		}
 		if a.T != nil {
@@ -716,11 +728,27 @@ func (e *Enc) evalCall(n *CallE, env *Env) (TV, error) {
 	case "mapOf": // unbox a map[string]any from an any
 		mt := types.NewMap(types.Typ[types.String], types.NewInterfaceType(nil, nil))
 		return TV{"(vid " + args[0].S + ")", sInt, mt}, nil
+	case "globalRef":
+		name, ok := smtStringLit(args[0].S)
+		if !ok {
+			return TV{}, fmt.Errorf("globalRef needs a literal")
+		}
+		for _, sp := range e.w.prog.AllPackages() {
+			for mn, m := range sp.Members {
+				if g, ok := m.(*ssa.Global); ok && sp.Pkg.Name()+"."+mn == name {
+					return e.val(g), nil
+				}
+			}
+		}
+		return TV{}, fmt.Errorf("unknown global %s", name)
 	case "isMapStringAny":
 		mt := types.NewMap(types.Typ[types.String], types.NewInterfaceType(nil, nil))
 		return TV{fmt.Sprintf("(and ((_ is VRef) %s) (= (vtype %s) %d))", args[0].S, args[0].S, e.w.so.typeID(mt)), sBool, tBool}, nil
-	case "visited": // visited(k): key already produced by the innermost map range of the loop
-		return TV{}, fmt.Errorf("visited() is only available through loop environments")
+	case "visited": // visited(k): key already produced by the map range of the loop being specified
+		if env.iterKey == "" {
+			return TV{}, fmt.Errorf("visited() is only available in invariants of map-range loops")
+		}
+		return TV{sel(e.get(env.st, env.iterKey), args[0].S), sBool, tBool}, nil
 	case "abs":
 		return TV{fmt.Sprintf("(abs %s)", args[0].S), sInt, tInt}, nil
 	case "trimSpaceOf": // r is s without leading/trailing ASCII space (relation)
@@ -811,4 +839,21 @@ func smtStringLit(t string) (string, bool) {
 		b.WriteByte(c)
 	}
 	return b.String(), true
+}
+
+// wfHeapTerm asserts type well-formedness of a ground term read from the heap by a contract.
+func (e *Enc) wfHeapTerm(t string, ty types.Type) {
+	if e.wfSeen == nil {
+		e.wfSeen = map[string]bool{}
+	}
+	if e.wfSeen[t] {
+		return
+	}
+	e.wfSeen[t] = true
+	switch ty.Underlying().(type) {
+	case *types.Slice:
+		e.assert(fmt.Sprintf("(and (>= (slen %s) 0) (>= (sbase %s) 0) (=> (= (sbase %s) 0) (= (slen %s) 0)))", t, t, t, t))
+	case *types.Interface:
+		e.assert(fmt.Sprintf("(wfVal %s)", t))
+	}
 }
